@@ -83,55 +83,58 @@ def run(ctx):
     # stored by one expression or by several guarded stores (ternary vs if/else chain): the stores to the
     # level slot are collected with their enclosing conditions, evaluated for each repetition value, and
     # the last store whose guards hold decides
-    groups = {}
+    # the two leaf-adding entry points are executed abstractly once per repetition value (allocation and
+    # string helpers hooked): the level slots of the new leaf then hold the table's values. How the
+    # levels are computed (ternaries, if/else chain, switch, a lookup helper) does not matter.
+    from ..rules import sem
+    nsites = 0
     ac = P.fn("carquet_schema_add_column", SC)
-    for a in ac.body.walk():
-        if is_assign(a) and a.c[0].strip().k == "ArraySubscriptExpr":
-            m = [x.name for x in a.c[0].walk() if x.k == "MemberExpr"]
-            if "max_def_levels" in m:
-                groups.setdefault((ac.name, "def"), (ac, "repetition", []))[2].append(a)
-            if "max_rep_levels" in m:
-                groups.setdefault((ac.name, "rep"), (ac, "repetition", []))[2].append(a)
     wi = P.fn("add_column_internal", FW)
-    for a in wi.body.walk():
-        if is_assign(a) and a.c[0].strip().k == "MemberExpr":
-            if a.c[0].strip().name == "max_def_level":
-                groups.setdefault((wi.name, "def"), (wi, "repetition", []))[2].append(a)
-            if a.c[0].strip().name == "max_rep_level":
-                groups.setdefault((wi.name, "rep"), (wi, "repetition", []))[2].append(a)
-    nsites = sum(len(g[2]) for g in groups.values())
-    for (fname, which), (fn, pname, stores) in sorted(groups.items()):
+    common = {"strdup": lambda ev, a, it: sem.Ptr("dup", 0, 1), "memset": lambda ev, a, it: a[0],
+              "realloc": lambda ev, a, it: a[0], "carquet_arena_strdup": lambda ev, a, it: sem.Ptr("dup", 0, 1)}
+    for fn in (ac, wi):
         for nm, val in (("REQUIRED", REQ), ("OPTIONAL", OPT), ("REPEATED", REP)):
-            env = {p_["d"]: val for p_ in fn.params if p_["n"] == pname}
-            got = None
-            unknown = False
-            for a in sorted(stores, key=lambda x: x.i):
-                active = True
-                child = a
-                for anc in a.ancestors():
-                    if anc.k == "IfStmt":
-                        kids = [x for x in anc.c if x is not None]
-                        v = _eval(P, fn, kids[0], env)
-                        inthen = _inside(child, kids[1])
-                        if v is None:
-                            unknown = True
-                        elif bool(v) != inthen:
-                            active = False
-                    child = anc
-                if active and not unknown:
-                    v = _eval(P, fn, a.c[1], env)
-                    if v is None:
-                        unknown = True
-                    else:
-                        got = v
-            want = WANT[val][0 if which == "def" else 1]
-            key = "sibling-level|%s:%s|%s|%s" % (P.rel(fn.file), fn.name, which, nm)
-            if unknown or got is None:
-                ctx.inconclusive("R5.siblings", key, P.where(stores[0]), "level stores not evaluable for this repetition")
-            else:
-                ctx.ob("R5.siblings", key, P.where(stores[0]),
-                       "%s: max_%s for a flat %s leaf is %d (same table as the reader)" % (fn.name, which, nm, want),
-                       got == want, "code gives %d" % got)
+            got = {}
+            why = None
+            try:
+                if fn is ac:
+                    so = sem.field_offsets(P, "carquet_schema")
+                    esz = P.record("parquet_schema_element")["size"]
+                    heap0 = {("s", so["num_elements"]): 3, ("s", so["capacity"]): 16, ("s", so["num_leaves"]): 2,
+                             ("s", so["elements"]): sem.Ptr("els", 0, esz), ("s", so["leaf_indices"]): sem.Ptr("li", 0, 4),
+                             ("s", so["max_def_levels"]): sem.Ptr("mdl", 0, 2), ("s", so["max_rep_levels"]): sem.Ptr("mrl", 0, 2),
+                             ("els", sem.field_offsets(P, "parquet_schema_element")["num_children"]): 2}
+                    ret, ev, heap = sem.run(P, fn, [sem.Ptr("s", 0, 1), sem.Ptr("name", 0, 1), 1, 0, val, 0],
+                                            heap0=heap0, hooks=common, single=True, max_forks=64)
+                    got = {"def": heap.get(("mdl", 2 * 2)), "rep": heap.get(("mrl", 2 * 2))}
+                else:
+                    wo_ = sem.field_offsets(P, "carquet_writer")
+                    do_ = sem.field_offsets(P, "writer_column_def")
+                    dsz = P.record("writer_column_def")["size"]
+                    heap0 = {("fw", wo_["num_columns"]): 2, ("fw", wo_["column_capacity"]): 8,
+                             ("fw", wo_["columns"]): sem.Ptr("cols", 0, dsz),
+                             ("fw", wo_["column_values_written"]): sem.Ptr("cvw", 0, 8)}
+                    ret, ev, heap = sem.run(P, fn, [sem.Ptr("fw", 0, 1), sem.Ptr("name", 0, 1), 1, 0, val, 0],
+                                            heap0=heap0, hooks=common, single=True, max_forks=64)
+                    got = {"def": heap.get(("cols", 2 * dsz + do_["max_def_level"])),
+                           "rep": heap.get(("cols", 2 * dsz + do_["max_rep_level"]))}
+                if ret != 0:
+                    why = "returns %s" % ret
+            except (sem.Inconclusive, KeyError, AnalysisBroken) as ex:
+                why = "%s: %s" % (type(ex).__name__, ex)
+            for which in ("def", "rep"):
+                nsites += 1
+                want = WANT[val][0 if which == "def" else 1]
+                key = "sibling-level|%s:%s|%s|%s" % (P.rel(fn.file), fn.name, which, nm)
+                g_ = got.get(which)
+                if why is not None or not isinstance(g_, int):
+                    ctx.inconclusive("R5.siblings", key, P.where(fn.body), "level stores not evaluable for this repetition",
+                                     why or "the level slot holds %r after the call" % (g_,))
+                else:
+                    ctx.ob("R5.siblings", key, P.where(fn.body),
+                           "%s: max_%s for a flat %s leaf is %d (same table as the reader; abstract execution)" % (fn.name, which, nm, want),
+                           g_ == want, "code gives %d" % g_)
+    nsites //= 3
     sites = []
     for nm, which in (("carquet_schema_node_max_def_level", "def"), ("carquet_schema_node_max_rep_level", "rep")):
         g = P.fn(nm, SC)
